@@ -130,4 +130,126 @@ theorem datapktsToPtfr_ok (pkts : List (Bytes × Bool)) (L sid : Nat) (hL : 0 < 
     ∃ cur out, datapktsToPtfr pkts L sid = .ok (cur, out) :=
   encFold_ok L sid hL _ (datapktsToPtdp_wf pkts) _
 
+/-! ### byte accounting: the encapsulator neither loses nor invents a byte, overflowing insertions included -/
+
+/-- `add_payload` conserves bytes: what the frame holds afterwards plus what is handed back = what it held + the
+    buffer (+ the continuation byte of a low-latency insertion) -/
+theorem addPayload_conserve (s : PTFR.State) (buf : Bytes) (isLlp : Bool) :
+    (PTFR.addPayload s buf isLlp).1.payload.length + (PTFR.addPayload s buf isLlp).2.length =
+      s.payload.length + buf.length + (if isLlp then 1 else 0) := by
+  have hb0 : PTFR.byte1 PTFR_add_payload_fmt0 0xFF = [0xFF] := byte1_val _ _ rfl (by decide)
+  have hb1 : PTFR.byte1 PTFR_add_payload_fmt1 0x0 = [0x00] := byte1_val _ _ rfl (by decide)
+  have hb2 : PTFR.byte1 PTFR_add_payload_fmt2 0x0 = [0x00] := byte1_val _ _ rfl (by decide)
+  have cut : ∀ s1 : PTFR.State,
+      (if s1.payload.length > s1.length then
+        (({ s1 with payload := s1.payload.take s1.length } : PTFR.State), s1.payload.drop s1.length)
+       else (s1, [])).1.payload.length +
+      (if s1.payload.length > s1.length then
+        (({ s1 with payload := s1.payload.take s1.length } : PTFR.State), s1.payload.drop s1.length)
+       else (s1, [])).2.length = s1.payload.length := by
+    intro s1
+    split
+    · simp only [List.length_take, List.length_drop]; omega
+    · simp
+  unfold PTFR.addPayload
+  simp only
+  rw [cut]
+  cases isLlp with
+  | false => simp
+  | true =>
+    by_cases hp : s.payload.length > 0
+    · cases hl : s.llp <;> simp [hp, hb0, hb1] <;> omega
+    · have h0 : s.payload.length = 0 := by omega
+      simp [h0, hb2]
+
+/-- the outer loop conserves bytes (its precondition as `encStep` establishes it: a non-empty remainder means the
+    frame in hand is full) -/
+theorem spill_conserve (L sid : Nat) (hL : 0 < L) (fuel : Nat) (hf : 2 ≤ fuel) (a : Bool) (cur : PTFR.State) (rem : Bytes)
+    (out : List PTFR.State) (hfull : rem ≠ [] → cur.payload.length = L) (c' : PTFR.State) (o' : List PTFR.State)
+    (h : spill L sid fuel a cur rem out = .ok (c', o')) :
+    o'.length * L + c'.payload.length = out.length * L + cur.payload.length + rem.length := by
+  obtain ⟨n, rfl⟩ : ∃ n, fuel = n + 2 := ⟨fuel - 2, by omega⟩
+  by_cases hr : rem = []
+  · subst hr
+    simp only [spill, if_true, Except.ok.injEq, Prod.mk.injEq] at h
+    obtain ⟨h1, h2⟩ := h
+    subst h1 h2
+    simp
+  · obtain ⟨a', r', o1, hsf, _, hsp⟩ := spill_eq L sid hL n a cur rem out hr
+    obtain ⟨a2, c2, r2, o2, hsf2, _, _, _, hsum⟩ :=
+      spillFull_ok_any L sid hL (rem.length + 1) a (newPtfr L sid) rem (out ++ [cur]) (by omega)
+    rw [hsf] at hsf2
+    simp only [Except.ok.injEq, Prod.mk.injEq] at hsf2
+    obtain ⟨_, _, e3, e4⟩ := hsf2
+    subst e3 e4
+    rw [hsp] at h
+    simp only [Except.ok.injEq, Prod.mk.injEq] at h
+    obtain ⟨h1, h2⟩ := h
+    subst h1 h2
+    simp only [List.length_append, List.length_singleton] at hsum
+    rw [Nat.add_mul] at hsum
+    have := hfull hr
+    simp only
+    omega
+
+/-- bytes a PTDP occupies in the frames: 6 header bytes, the payload, and the continuation byte if low-latency -/
+def ptdpCost (p : PTDP.State) : Nat := 6 + p.payload.length + (if p.low_latency then 1 else 0)
+
+theorem encFold_conserve (L sid : Nat) (hL : 0 < L) (ps : List PTDP.State) (hps : ∀ p ∈ ps, PTDP_WF p) :
+    ∀ (cur : PTFR.State) (out : List PTFR.State) (c' : PTFR.State) (o' : List PTFR.State),
+      cur.length = L → cur.payload.length ≤ L → encFold L sid ps (cur, out) = .ok (c', o') →
+      o'.length * L + c'.payload.length = out.length * L + cur.payload.length + (ps.map ptdpCost).sum := by
+  induction ps with
+  | nil =>
+    intro cur out c' o' _ _ h
+    simp only [encFold, Except.ok.injEq, Prod.mk.injEq] at h
+    obtain ⟨h1, h2⟩ := h; subst h1 h2; simp
+  | cons p ps ih =>
+    intro cur out c' o' hlen hle h
+    simp only [encFold] at h
+    cases hs : encStep L sid (cur, out) p with
+    | error e => rw [hs] at h; cases h
+    | ok st1 =>
+      obtain ⟨cur1, out1⟩ := st1
+      rw [hs] at h
+      simp only at h
+      unfold encStep at hs
+      simp only [pack_encB p (hps p (by simp))] at hs
+      have hf := addPayload_facts cur (encB p) p.low_latency
+      have hc := addPayload_conserve cur (encB p) p.low_latency
+      cases hadd : PTFR.addPayload cur (encB p) p.low_latency with
+      | mk cur0 rem =>
+        rw [hadd] at hs hf hc
+        simp only at hs hf hc
+        have h1 := spill_conserve L sid hL _ (by omega) _ cur0 rem out
+          (fun hne => by rw [hf.2.2.2.2 hne, hlen]) cur1 out1 hs
+        have h2 := ih (fun q hq => hps q (by simp [hq])) cur1 out1 c' o'
+        -- the frame after the step is again an open frame of length L
+        have hcur1 : cur1.length = L ∧ cur1.payload.length ≤ L := by
+          by_cases hr : rem = []
+          · subst hr
+            simp only [spill, if_true, Except.ok.injEq, Prod.mk.injEq] at hs
+            obtain ⟨e1, _⟩ := hs
+            subst e1
+            exact ⟨by rw [hf.1, hlen], by rw [← hlen]; exact hf.2.2.2.1⟩
+          · obtain ⟨a', r', o1, _, hr', hsp⟩ := spill_eq L sid hL rem.length
+              ((cur.payload.length == L) && !p.low_latency) cur0 rem out hr
+            rw [hsp] at hs
+            simp only [Except.ok.injEq, Prod.mk.injEq] at hs
+            obtain ⟨e1, _⟩ := hs
+            subst e1
+            exact ⟨rfl, hr'⟩
+        have := h2 hcur1.1 hcur1.2 h
+        simp only [List.map_cons, List.sum_cons, ptdpCost]
+        rw [encB_length] at hc
+        omega
+
+/-- the whole encapsulator: frames yielded × L + bytes pending = Σ over the PTDPs of (6 + payload + continuation byte) -/
+theorem datapktsToPtfr_conserve (pkts : List (Bytes × Bool)) (L sid : Nat) (hL : 0 < L) (cur : PTFR.State)
+    (out : List PTFR.State) (h : datapktsToPtfr pkts L sid = .ok (cur, out)) :
+    out.length * L + cur.payload.length = ((datapktsToPtdp pkts).map ptdpCost).sum := by
+  have := encFold_conserve L sid hL (datapktsToPtdp pkts) (datapktsToPtdp_wf pkts) (newPtfr L sid) [] cur out rfl
+    (by simp [newPtfr, PTFR.fresh]) h
+  simpa [newPtfr, PTFR.fresh] using this
+
 end Acra.Lemmas.Chapter7
